@@ -163,6 +163,21 @@ def gen_case(task, i):
     return dict(mods=mods, imports=imports, key_order=key_order, body="\n".join(B), stream=task["stream"], vectors=[dict(append_version=False), dict(append_version=False, inline_functions=False), dict(r.choice(CORNERS), append_version=False, remove_labels=r.random() < 0.5, compact=r.random() < 0.5)], env_seeds=[f"{i}:0", f"{i}:1"])
 
 
+def multi_with_main_function(i, r, same_name=0.6):
+    """{module: source} of case i of this generator; with probability `same_name` the main script also defines (and
+    calls twice) a function that carries the bare name of a library function, has a parameter, a local and an early
+    return - '<module>.<f>' and '<f>' are different functions with their own labels and registers."""
+    cc = gen_case(dict(stream="split"), i)
+    src, _ = render(cc)
+    if r.random() < same_name:
+        f = r.choice(r.choice(cc["mods"])["funcs"])[0]
+        ls = src[""].split("\n")
+        k = max(j for j, l in enumerate(ls) if l.startswith("from library import")) + 1
+        ls[k:k] = [f"def {f}(q):", "    t = q * 2 + 1", "    if q > 3:", "        return 1", "    d5.Setting = t", "    return 2"]
+        src[""] = "\n".join(ls) + f"    d4.Setting = {f}(d3.Setting)\n    d4.Mode = {f}(7)\n"
+    return src
+
+
 def render(case, drop_unused=False):
     """-> (multi-module sources dict, merged single source)"""
     mods = case["mods"]
